@@ -182,6 +182,47 @@ fn main() {
         }
         rep.bump_by("generated.boundary-arith", n_boundary);
     }
+    // conditions that are not comparisons (after a wave-11 seed: JumpIfFalse read its operand as an INTEGER): a bare
+    // LONG / SINGLE / DOUBLE value - non-zero below one half, beyond the INTEGER range, zero, negative - as a literal
+    // and in a variable, as the condition of every conditional construct of the core language
+    {
+        let values: [(&str, &str); 14] = [
+            ("!", "0.25"), ("!", "-0.25"), ("!", "0.4375"), ("!", "0"), ("!", "40000.5"), ("!", "-70000.5"), ("!", "1.5"),
+            ("#", "0.125#"), ("#", "-0.375#"), ("#", "3000000000.5#"), ("#", "0"),
+            ("&", "100000"), ("&", "-32769"), ("&", "0"),
+        ];
+        let mut n_bare = 0u64;
+        for (sfx, v) in values {
+            for as_var in [false, true] {
+                let c = if as_var { format!("V{}", sfx) } else { v.to_owned() };
+                let c = if as_var || !v.starts_with('-') { c } else { format!("({})", c) };
+                let init = if as_var { format!("V{} = {}\n", sfx, v) } else { String::new() };
+                let forms = [
+                    format!("IF {c} THEN\nPRINT \"t\"\nELSE\nPRINT \"f\"\nEND IF\n"),
+                    format!("IF N% = 1 THEN\nPRINT \"a\"\nELSEIF {c} THEN\nPRINT \"t\"\nELSE\nPRINT \"f\"\nEND IF\n"),
+                    format!("WHILE {c}\nN% = N% + 1\nPRINT N%\nIF N% = 2 THEN\nV{sfx} = 0\nEND IF\nIF N% > 3 THEN\nPRINT \"x\"\nSYSTEM\nEND IF\nWEND\n"),
+                    format!("DO WHILE {c}\nN% = N% + 1\nPRINT N%\nIF N% > 2 THEN\nPRINT \"x\"\nSYSTEM\nEND IF\nLOOP\n"),
+                    format!("DO UNTIL {c}\nN% = N% + 1\nPRINT N%\nIF N% > 2 THEN\nPRINT \"x\"\nSYSTEM\nEND IF\nLOOP\n"),
+                    format!("DO\nN% = N% + 1\nPRINT N%\nIF N% > 2 THEN\nPRINT \"x\"\nSYSTEM\nEND IF\nLOOP WHILE {c}\n"),
+                    format!("DO\nN% = N% + 1\nPRINT N%\nIF N% > 2 THEN\nPRINT \"x\"\nSYSTEM\nEND IF\nLOOP UNTIL {c}\n"),
+                ];
+                for (fi, body) in forms.into_iter().enumerate() {
+                    let text = format!("{}PRINT \"go\"\n{}PRINT \"done\"; N%\n", init, body);
+                    match core_ast(&text) {
+                        Some(ast) => {
+                            cases.push(Case { text, ast, feats: "bare-condition".into() });
+                            n_bare += 1;
+                        }
+                        None => {
+                            rep.bump(&format!("bare-condition.outside-core.form{}.{}.{}{}", fi, if as_var { "var" } else { "lit" }, v, sfx));
+                            outside += 1
+                        }
+                    }
+                }
+            }
+        }
+        rep.bump_by("generated.bare-condition", n_bare);
+    }
     rep.bump_by("generated.outside-core-or-rejected", outside);
     // every program runs once on the real implementation (in parallel threads), results are shared by the comparisons
     let t0 = std::time::Instant::now();
